@@ -92,6 +92,7 @@ NsOps == << NsOp(<<>>, Named(<<"q">>)), NsOp(<<3, 5>>, Named(<<"a">>)), NsOp(<<7
             NsOp(<<11>>, Named(<<"e">>)), NsOp(<<12, 14>>, Named(<<"n">>)), NsOp(<<16>>, Named(<<"t">>)), NsOp(<<18>>, Named(<<"z">>)),
             NsOp(<<3, 5, 9>>, Bin("union", Named(<<"a">>), Named(<<"c">>))), NsOp(<<20>>, Named(<<"m">>)),
             NsOp(<<5, 3>>, NoE),     \* a node-set handed over in reverse document order
+            NsOp(<<5, 9, 3, 7>>, NoE), NsOp(<<9, 3, 12, 5>>, NoE),   \* ... and in no order at all: the first node in document order (3) sits in the middle
             NsOp(<<24, 26>>, Named(<<"x">>)), NsOp(<<28, 30>>, Named(<<"y">>)), NsOp(<<32, 34>>, Named(<<"w">>)),
             NsOp(<<36, 38>>, Named(<<"h">>)), NsOp(<<40, 42, 44>>, Named(<<"g">>)), NsOp(<<40, 44>>, NoE) >>
 CmpNums == SubSeq(NumOps, 1, 13) \o <<NumOp(R(3, 2)), NumOp(R(1, 2))>>
@@ -192,6 +193,19 @@ C06Laws == (Ready /\ Family = "C06") =>
         (x.c = "fin") => /\ IsInteger(f) /\ IsInteger(c) /\ IsInteger(r)
                          /\ NumLe(f, x) /\ NumLe(x, c) /\ NumLe(Sub(c, f), NInt(1))
                          /\ r \in {f, c} \/ (IsZero(r) /\ (IsZero(f) \/ IsZero(c)))
+\* long decimal numerals (16 to 19 significant digits): the specification does not know their doubles, but the string and
+\* the literal spelled the same convert to the same one
+Chars(str) == [i \in 1..Len(str) |-> str[i]]
+LongNumerals == << <<"0",".","9","9","1","7","5","3","4","0","4","5","2","4","4","9","5","9">>,
+                   <<"8","4","7",".","0","5","2","7","7","4","9","2","3","9","2","9","1","8">>,
+                   <<"5","8","2",".","5","8","9","0","6","3","8","5","0","8","1","4","9","1","5">>,
+                   <<"0",".","1","2","3","4","5","6","7","8","9","0","1","2","3","4","5","6","7">>,
+                   <<"9","0","0","7","1","9","9","2","5","4","7","4","0","9","9","3",".","5">>,
+                   <<"1","2","3","4","5","6","7","8","9","0","1","2","3","4","5","6","7","8","9","0","1">> >>
+LongNumeralCases == [k \in 1..(2 * Len(LongNumerals)) |->
+   LET s == LongNumerals[((k - 1) \div 2) + 1] IN
+   IF k % 2 = 1 THEN Obj(Env1(StrV(s)), Bin("eq", F1(S_number, Lit(s)), NumText(s)))
+   ELSE Obj(Env1(StrV(s)), Bin("ne", NumText(s), F1(S_number, Lit(s))))]
 C06Cases == LET A == Ops6[a] B == Ops6[b] env == Env2(A.val, B.val) IN
   [i \in 1..5 |-> Obj(env, Bin(ArOps[i], XVar, YVar))]
   \o (IF A.e.op # "none" /\ B.e.op # "none" THEN [i \in 1..5 |-> Obj(env, Bin(ArOps[i], A.e, B.e))] ELSE <<>>)
@@ -201,6 +215,7 @@ C06Cases == LET A == Ops6[a] B == Ops6[b] env == Env2(A.val, B.val) IN
                                             \o (IF A.e.op # "none" THEN << Obj(env, F1(S_sum, A.e)), Obj(env, F1(S_count, A.e)) >> ELSE <<>>)
                         ELSE IF A.e.op # "none" THEN << Obj(env, F1(S_round, A.e)), Obj(env, F1(S_floor, A.e)), Obj(env, F1(S_ceiling, A.e)) >> ELSE <<>>)
       ELSE <<>>)
+  \o (IF a = 1 /\ b = 1 THEN LongNumeralCases ELSE <<>>)
 
 (***************************************************************************)
 (* C04: numbers -> string / boolean, strings -> number / boolean           *)
@@ -228,6 +243,7 @@ C04sLaws == (Ready /\ Family = "C04s") =>
 C04sCases == LET s == StrAB env == Env1(StrV(s)) IN
   << Obj(env, F1(S_number, XVar)), Obj(env, Bin("add", XVar, IntE(0))), Obj(env, Bin("eq", XVar, IntE(1))), Obj(env, F1(S_boolean, XVar)),
      Obj(env, Bin("lt", XVar, IntE(2))), Obj(env, F1(S_number, Lit(s))), Obj(env, NegE(XVar)), Obj(env, F1(S_string, XVar)) >>
+  \o (IF a = 1 /\ b = 1 THEN LongNumeralCases ELSE <<>>)
 
 (***************************************************************************)
 (* C07                                                                     *)
@@ -263,6 +279,7 @@ C07Laws == (Ready /\ Family \in {"C07u", "C07b", "C07t", "C07s"}) =>
          /\ Chs(Substring(s, p, FALSE, Nan)) = Chs(Substring(s, p, TRUE, Inf(1))) \/ IsNan(p) \/ (IsInf(p) /\ p.s = -1)
          /\ Chs(Substring(s, NInt(1), FALSE, Nan)) = s
          /\ Chs(Substring(s, p, TRUE, Nan)) = <<>>
+         /\ Chs(Substring(s, p, TRUE, NInt(-1))) = <<>> /\ Chs(Substring(s, p, TRUE, Zero(1))) = <<>>        \* a length that is not positive selects nothing
 C07Cases ==
   CASE Family = "C07u" ->
          LET s == C07uStr env == Env1(StrV(s)) IN
